@@ -47,6 +47,12 @@ def gen_start_scenario(rnd, drops=True):
     if rnd.random() < 0.2:
         sc['lose'] = ['n2', rnd.choice([5, 6, 7, 8]) if trig_kind == 'distribution' else rnd.choice([0, 1, 2, 3])]
         sc['rounds'] = 22
+    if 'lose' not in sc and rnd.random() < 0.12:
+        remote = [ns for ns, a_p in ((f'{a["name"]}:{p["name"]}', p) for a in apps for p in a['procs'])
+                  if a_p['target'] == 'n2' and a_p['seq'] > 0]
+        if remote:
+            sc['lose_at_req'] = rnd.choice(remote)
+            sc['rounds'] = 22
     if trig_kind == 'distribution':
         sc['pre_rounds'] = 7 + 18
         sc['rounds'] = 4
